@@ -116,6 +116,12 @@ class Env:
             return SV(x)
         return x if isinstance(x, CV) else CV(x)
 
+    def raw(self, x):
+        """oracle scalar -> value that can be put into a spec / tensor (SV term, or float when concrete)"""
+        if self.mode == "sym":
+            return SV(x)
+        return float(x.v) if isinstance(x, CV) else float(x)
+
     def uf(self, name, *args):
         if self.mode == "sym":
             return uf_apply(name, *[SV(a) for a in args])
@@ -292,6 +298,7 @@ def run_item(harness, item, *, tier="quick", max_paths=256, timeout_ms=20000, ce
     pending_replays = []      # (label, key, model, detail, twin_label)
     val_points = []           # (path_hyps, {label: impl term})
     labels_seen = []
+    twin_cands = set()
 
     def one_run(twin_label=None, collect=True):
         env = Env("sym", tier=tier, seed=seed, twin_label=twin_label, params=params)
@@ -317,6 +324,8 @@ def run_item(harness, item, *, tier="quick", max_paths=256, timeout_ms=20000, ce
                                         "goal": ob.goal.sexpr()[:300], "verdict": v.status,
                                         "cells": v.ncells, "ms": round(v.ms, 2)})
                 labels_seen.append(ob.label)
+                if ob.validate:
+                    twin_cands.add(ob.label)
             if ob.kind == "eq" and ob.impl is not None and ob.validate:
                 impl_terms[ob.label] = ob.impl
             if v.status == "sat":
@@ -432,7 +441,7 @@ def run_item(harness, item, *, tier="quick", max_paths=256, timeout_ms=20000, ce
 
         # ---- reachability twin ------------------------------------------------------------------------
         if twin and labels_seen:
-            cands = sorted(set(labels_seen))
+            cands = sorted(twin_cands) or sorted(set(labels_seen))
             tl = cands[rng.randrange(len(cands))]
             found = {"sat": False, "replayed": False}
 
